@@ -486,7 +486,7 @@ class SpectralDensity(DFunction, UnitsManaged):
             #self.cutoff_time = max(self.cutoff_time, other.cutoff_time)
             
 
-            for p in other.params:
+            for p in list(other.params):
                 self.params.append(p)            
             
             self._is_composed = True
